@@ -192,8 +192,10 @@ func (r *repository) removeRulesFrom(tree *radixtree.Tree[rule.Route], tbdRules 
 		for _, route := range rul.Routes() {
 			if err := tree.Delete(
 				route.Path(),
-				radixtree.ValueMatcherFunc[rule.Route](func(route rule.Route) bool {
-					return route.Rule().SameAs(rul)
+				// only the route itself is removed. A rule may define multiple routes for the same path
+				// (e.g. with different path params), each of which is deleted by an own call.
+				radixtree.ValueMatcherFunc[rule.Route](func(existing rule.Route) bool {
+					return existing == route
 				}),
 			); err != nil {
 				return errorchain.NewWithMessagef(heimdall.ErrInternal, "failed deleting rule ID='%s'", rul.ID()).
